@@ -154,6 +154,13 @@ def gen_config(rng, spec_modules, stats):
   mods = [mm for mm in sorted(VALID) if rng.random() < (0.6 if mm in spec_modules else 0.15)]
   for mm in mods:
     cfg[mm] = dict(rng.choice(VALID[mm]))
+    if rng.random() < 0.2:
+      # an explicit JSON null next to the other keys (never judged by itself; the output must still equal the pipeline's)
+      keys = sorted(k for (m_, k) in pipeline.DOCUMENTED if m_ == mm and k not in cfg[mm])
+      if keys:
+        cfg[mm][rng.choice(keys)] = None
+        if mm == "general" and "document_lang" not in cfg[mm] and rng.random() < 0.7:
+          cfg[mm]["document_lang"] = rng.choice(["fr-CA", "ja", "es-419"])
   if cfg and rng.random() < 0.17:
     mm = rng.choice(sorted(cfg))
     cfg[mm] = dict(rng.choice(INVALID[mm]))
